@@ -36,7 +36,7 @@ def floors(tier):
     return {"evaluations": 800 if q else 12000, "distinct_nontrivial": 250 if q else 4000, "kind:synth": 500 if q else 8000,
             "kind:curated": 200 if q else 3000, "cycles_checked": 1000 if q else 20000, "no_cycle": 40 if q else 600,
             "start:998": 80 if q else 1200, "start:5000": 80 if q else 1200, "self_loops": 100 if q else 1500, "mem_cycles": 10 if q else 150,
-            "flags_on": 150 if q else 2500, "summary_checked": 700 if q else 10000, "lcd_column_checked": 400 if q else 6000, "report_lcd_column_checked": 400 if q else 6000, "report_lcd_list_checked": 300 if q else 5000, "kernels_of_50_or_more_lines": 15 if q else 300, "maximum_cycle_with_zero_latency_member": 20 if q else 300, "refdeps_compared": 400 if q else 6000}
+            "flags_on": 150 if q else 2500, "summary_checked": 700 if q else 10000, "lcd_column_checked": 400 if q else 6000, "report_lcd_column_checked": 400 if q else 6000, "report_lcd_list_checked": 300 if q else 5000, "member_latencies_checked": 1500 if q else 25000, "kernels_of_50_or_more_lines": 15 if q else 300, "maximum_cycle_with_zero_latency_member": 20 if q else 300, "refdeps_compared": 400 if q else 6000}
 
 
 def plan(tier, seed):
@@ -69,6 +69,18 @@ def judge(isa, kernel_ast, forms, dg, mm, sem, parser, text, flags, start, R, ca
         if any(l not in idx for l in lines):
             R.violation("entry/member-not-a-kernel-line", "key %r members %s, kernel lines %s..%s" % (key, lines, forms[0].line_number, forms[-1].line_number), case)
             continue
+        # "the latencies along it": each member passes its result on with its latency without a separately modelled load stage
+        # (+ forwarding latency through memory) or with the index write-back latency
+        fwd = float((mm.get("store_to_load_forward_latency", 0) if mm is not None else 0) or 0)
+        pidx = float(mm.get("p_index_latency", 1) if mm is not None else 1)
+        for d in deps:
+            F = d[0]
+            wo = float(F.latency_wo_load if F.latency_wo_load is not None else F.latency)
+            R.count("member_latencies_checked")
+            if not any(abs(float(d[1]) - a) <= 1e-6 for a in (wo, wo + fwd, pidx)):
+                R.violation("entry/member-latency-is-not-a-producer-latency", "key %r: line %d passes its result on with %s; its latency without load stage is %s "
+                            "(forwarding %s, index write-back %s)" % (key, F.line_number, d[1], wo, fwd, pidx), case)
+                break
         if abs(sum(float(d[1]) for d in deps) - float(v["latency"])) > 1e-6:
             R.violation("entry/latency-is-not-the-sum-along-the-cycle", "key %r latency %s, per-edge %s" % (key, v["latency"], [d[1] for d in deps]), case)
         canon = tuple(sorted((idx[d[0].line_number], round(float(d[1]), 6)) for d in deps))
